@@ -21,7 +21,7 @@ HERE = os.path.dirname(os.path.abspath(__file__))
 sys.path.insert(0, HERE)
 import gen  # noqa: E402
 
-TIERS = {'quick': dict(tus=32, funcs=150, K=100), 'thorough': dict(tus=160, funcs=150, K=400)}
+TIERS = {'quick': dict(tus=64, funcs=150, K=100), 'thorough': dict(tus=320, funcs=150, K=400)}
 JOBS = int(os.environ.get('VERIF_JOBS', '16'))
 MAX_SHRINK = 40
 
